@@ -657,6 +657,7 @@ class SamplingMethod(DirectMethod):
     def fill_placeholders_integral_control(self, phase, stage, expr, refine=1):
         if phase==1: return
         [ts,exprs] = stage._sample(expr,grid='control',refine=refine)
+        ts = ca.vec(ts) # time grid may be a row (non-uniform grids) or a column (uniform grid)
         return ca.sum2(ca.diff(ts).T*exprs[:,:-1])
         r = 0
         for k in range(self.N):
